@@ -47,6 +47,7 @@ class MiniSqlBackend:
         self.db = db
         self.n_statements = 0
         self.fault_hook = None
+        self.abefore = None   # async hook(sql, args) awaited by the driver shim before each statement
         self.log = None
 
     def connect(self):
